@@ -22,7 +22,11 @@ Rem == Top - pos + 1                      \* bytes left in the innermost scope
 Constructed(t) == (t \div 32) % 2 = 1
 MaxI(a, b) == IF a > b THEN a ELSE b
 At(i) == IF i \in 1..Len(buf) THEN buf[i] ELSE 0          \* an out-of-range read is what NoOverread forbids; 0 stands for whatever memory holds
-Init == /\ buf \in Strings /\ pos = 1 /\ scopes = <<Len(buf)>> /\ phase = "tag" /\ tag = 0 /\ len = 0 /\ maxread = 0 /\ nodes = 0
+(* the input is any string: it is grown byte by byte (phase "build") and handed to the reader at any length up to MaxLen *)
+Init == /\ buf = <<>> /\ pos = 1 /\ scopes = <<0>> /\ phase = "build" /\ tag = 0 /\ len = 0 /\ maxread = 0 /\ nodes = 0
+Extend == /\ phase = "build" /\ Len(buf) < MaxLen /\ \E b \in Alphabet : buf' = Append(buf, b)
+          /\ UNCHANGED <<pos, scopes, phase, tag, len, maxread, nodes>>
+Start == /\ phase = "build" /\ phase' = "tag" /\ scopes' = <<Len(buf)>> /\ UNCHANGED <<buf, pos, tag, len, maxread, nodes>>
 Fail == phase' = "err" /\ UNCHANGED <<buf, pos, scopes, tag, len, maxread, nodes>>
 ReadTag == /\ phase = "tag"
            /\ IF Rem = 0
@@ -49,14 +53,14 @@ Content == /\ phase = "content"
               ELSE /\ nodes' = nodes + 1 /\ phase' = "tag" /\ UNCHANGED <<buf, tag, len, maxread>>
                    /\ IF Constructed(tag) THEN scopes' = Append(scopes, pos + len - 1) /\ UNCHANGED pos
                       ELSE pos' = pos + len /\ UNCHANGED scopes
-Next == ReadTag \/ ReadLen \/ Content
+Next == Extend \/ Start \/ ReadTag \/ ReadLen \/ Content
 Spec == Init /\ [][Next]_vars
-FairSpec == Spec /\ WF_vars(Next)
+FairSpec == Spec /\ WF_vars(Start \/ ReadTag \/ ReadLen \/ Content)
 (* ---- properties ---- *)
 NoOverread == maxread <= Len(buf)
 ScopesNested == /\ \A i \in 1..(Len(scopes) - 1) : scopes[i + 1] <= scopes[i]
                 /\ pos - 1 <= Top
-Terminates == <>(phase \in {"done", "err"})
+Terminates == <>(phase \in {"done", "err"})          \* under FairSpec the input is eventually handed over and the reader finishes
 (* ---- the same reader as a function: result [ok, nodes] ---- *)
 LenAt(s, p, e) ==       \* length field starting at index p inside scope ending at e: [ok, len, next]
     IF p > e THEN [ok |-> FALSE, len |-> 0, next |-> p]
